@@ -32,7 +32,7 @@ type Upd struct {
 }
 
 type Case struct {
-	Kind  string `json:"kind"` // seq | trimline | gen
+	Kind  string `json:"kind"` // seq | trimline | gen | fault
 	Width int    `json:"width"`
 	Trim  bool   `json:"trim"`
 	Seq   []Upd  `json:"seq,omitempty"`
@@ -47,6 +47,17 @@ type Case struct {
 	// After: updates applied to the in-place writer after Close, followed by a
 	// second Close. The statement is silent about them: only "no panic" is judged.
 	After []Upd `json:"after,omitempty"`
+	// kind fault (fault.go): every write to stdout made by update number FaultAt
+	// (1-based) of the sequence (Seq, or genSeq(Shape, N, K) when Shape is set)
+	// fails; afterwards every line is rewritten once and the writer is closed.
+	FaultAt int `json:"fault_at,omitempty"`
+	// Room > 0: a PARTIAL fault: the update is written to a non-blocking one-page
+	// pipe with Room-1 bytes of room (writes that do not fit fail with EAGAIN);
+	// Room == 0: every write of the update fails (expired write deadline).
+	Room int `json:"room,omitempty"`
+	// DryRun (never stored): measure the bytes the update writes when all the
+	// room of the page is there.
+	DryRun bool `json:"-"`
 }
 
 // Texts may hold bytes that are not valid UTF-8, which encoding/json would
@@ -117,7 +128,7 @@ func (c *Case) UnmarshalJSON(b []byte) error {
 
 // seqOf returns the update sequence of a seq or gen case.
 func seqOf(c Case) []Upd {
-	if c.Kind == "gen" {
+	if c.Kind == "gen" || c.Kind == "fault" && c.Shape != "" {
 		return genSeq(c.Shape, c.N, c.K)
 	}
 	return c.Seq
@@ -186,6 +197,7 @@ type result struct {
 	postHash   uint64
 	nontrivial bool
 	outcome    string
+	dryBytes   int // dry run of a fault case: bytes written by the chosen update
 }
 
 func (r *result) fail(sig, format string, a ...any) {
@@ -708,9 +720,13 @@ func worker(w *runner.W) {
 			return false
 		}
 		w.SetCase(func() any { return c })
-		if c.Kind == "trimline" {
+		switch c.Kind {
+		case "trimline":
 			report(w, c, runTrimLine(c))
-		} else {
+		case "fault":
+			w.Add("cases_write_fault", 1)
+			report(w, c, runFault(cap, c))
+		default:
 			report(w, c, runSeq(cap, c))
 		}
 		return true
@@ -767,6 +783,59 @@ func worker(w *runner.W) {
 			if !exec(Case{Kind: "seq", Fam: "invalid-utf8", Width: wd, Trim: true, Seq: widthSeq(text, widthText(wd/2, "plain", "", 0))}) {
 				return
 			}
+		}
+	}
+	// The families below range over dimensions the property's quantifier does
+	// not have (write faults on stdout; updates after Close). A check may not
+	// raise an alarm on code where the property AS STATED holds, so they are not
+	// part of the C20 verdict: they run only with VERIF_C20_BEYOND=1 (used to
+	// study the seeded change C20-8 and the write-fault behaviour of the
+	// unchanged tree, see DESIGN.md 11.5).
+	if os.Getenv("VERIF_C20_BEYOND") != "1" {
+		return
+	}
+	// one update whose writes fail, then a full repaint and Close (fault.go)
+	stopped := false
+	faultUnits(w.Quick(), func(c Case) bool {
+		if !exec(c) {
+			stopped = true
+			return false
+		}
+		return true
+	})
+	if stopped {
+		return
+	}
+	// partial faults: one unit = (sequence, position, configuration), all amounts
+	// of room inside the unit
+	if rc := newRoomCapture(); rc == nil {
+		w.Cap("the kernel does not provide a one-page non-blocking pipe: partial write faults not executed")
+	} else {
+		defer rc.close()
+		roomUnits(w.Quick(), func(c Case) bool {
+			caseNo++
+			if !w.Owns(caseNo) {
+				return true
+			}
+			if w.Expired() {
+				stopped = true
+				return false
+			}
+			w.SetCase(func() any { return c })
+			dry := c
+			dry.DryRun, dry.Room = true, rc.page+1
+			total := runFault(rc, dry).dryBytes
+			for room := 0; room < total; room++ {
+				cr := c
+				cr.Room = room + 1
+				w.SetCase(func() any { return cr })
+				w.Add("cases_write_fault_partial", 1)
+				report(w, cr, runFault(rc, cr))
+			}
+			return true
+		})
+		if stopped {
+			return
 		}
 	}
 	// updates after Close (history): every sequence of 0..2 updates, Close,
@@ -837,9 +906,23 @@ func replay(w *runner.W, raw json.RawMessage) {
 		panic(err)
 	}
 	var res result
-	if c.Kind == "trimline" {
+	switch c.Kind {
+	case "trimline":
 		res = runTrimLine(c)
-	} else {
+	case "fault":
+		if c.Room > 0 {
+			rc := newRoomCapture()
+			if rc == nil {
+				panic("harness: no one-page non-blocking pipe on this kernel")
+			}
+			defer rc.close()
+			res = runFault(rc, c)
+		} else {
+			cap := newCapture()
+			defer cap.close()
+			res = runFault(cap, c)
+		}
+	default:
 		cap := newCapture()
 		defer cap.close()
 		res = runSeq(cap, c)
@@ -883,7 +966,14 @@ func rule(prop, tier string) string {
 	}
 	fmt.Fprintf(&sb, "SIZE sweeps (signatures end in /size-family; sizes S(max) = 0..70 and 2^k-1, 2^k, 2^k+1 for k >= 7 up to max; element i carries i): (a) number of lines n in S(%d), shapes %v (asc-twice: lines 0..n-1 with distinct texts L<i>xxx, then all again with the same texts; gap-desc: line n-1 first, then 0, then n-2..1; rotate: lines 0..n-1, then line i gets the text of line i+1; uniform: the same text on every line, then another text on every second line bottom-up; zigzag: 0,n-1,1,n-2,... for n <= 257) x {%s}; (b) number of updates n in S(%d), update j to line j mod k (shapes *-bwd: (k-1)j mod k) for k in %v, text u<j> plus a pad of periodic length (shapes %v: growing 0..8, shrinking 8..0, triangle 0..6..0, constant), every fourth text bold, x {%s}; (c) text length n in 0..%d against width w in 1..%d with trimming on: n distinct single-column runes (ASCII then 2-byte letters) plain / a short escape in front of every rune / one escape of 5, 17 or 20 bytes (%s) starting after p visible runes for p in {0,w-2,w-1,w,w+1,n} with the reset at the end / ESC[38;5;196;1;4m after p runes with the reset one rune later; each text through WriteLineNoWrap and through the writers as the sequence (0,text),(1,x),(0,text),(1,text),(0,first n/2 runes). ", sp.maxLines, lineShapes, strings.Join(lc, "; "), sp.maxUpdates, updLines, updShapes, strings.Join(uc, "; "), sp.maxText, sp.maxWidth, q(sweepEscapes))
 	fmt.Fprintf(&sb, "INVALID UTF-8 AROUND THE CUT (signatures end in /invalid-utf8-family): for every width w in %v with trimming on, lines of n columns for n in {w-1,w,w+1,w+2,w+3,2w+2} of distinct ASCII letters and digits with ONE unit of undecodable bytes {%s} (lone continuation byte; lone lead byte of a 2-, 3-, 4-byte sequence; truncated 3- and 4-byte sequence; overlong encoding; 0xFF) starting at column p for every p in w-4..w+2 (its bytes before the cut, exactly AT the cut = the w-th column, one before, one after, across it) and as the last and the second-to-last thing of the line, in the arrangements %v (esc-after: ESC[31m directly after the unit, reset at the end; colour-before: ESC[31m at the start and the reset directly before the unit, so that a line can be longer than the width only through escape bytes and end with the undecodable byte; wrapped: colour around the whole line); each text through WriteLineNoWrap and through TermWriter / BufferedTerm / VirtualTerm as the sequence (0,text),(1,x),(0,text),(1,text),(0,w/2 ASCII runes). ", sp.badWidths, q(badUnits), badArrangements)
-	sb.WriteString("HISTORY (signatures end in /history-family): every sequence of 0..2 updates over lines {0,2} x texts {empty, ab, coloured 8 runes}, Close, every sequence of 1..2 updates, Close, x {width 5 trim on; width 80 trim off}: the in-place writer must not panic (the statement is silent about the screen after Close, nothing else is judged; the buffered and virtual writers refuse updates after Close by design and are not driven after Close). The same text written twice to a line with other lines written in between, and the same text moved to another line, are in the exhaustive passes and in the shapes asc-twice, rotate, uniform and (c). ")
+	sb.WriteString("NOT PART OF THE VERDICT (run only with VERIF_C20_BEYOND=1, because the property quantifies over update sequences followed by close, not over write faults or updates after Close): HISTORY (signatures end in /history-family): every sequence of 0..2 updates over lines {0,2} x texts {empty, ab, coloured 8 runes}, Close, every sequence of 1..2 updates, Close, x {width 5 trim on; width 80 trim off}: the in-place writer must not panic (the statement is silent about the screen after Close, nothing else is judged; the buffered and virtual writers refuse updates after Close by design and are not driven after Close). The same text written twice to a line with other lines written in between, and the same text moved to another line, are in the exhaustive passes and in the shapes asc-twice, rotate, uniform and (c). ")
+	{
+		var cs []string
+		for _, c := range faultCfgs(quick) {
+			cs = append(cs, fmt.Sprintf("width %d trim %v", c.width, c.trim))
+		}
+		fmt.Fprintf(&sb, "WRITE FAULT (signatures C20/termwriter/write-fault/<class>/<failure>): ALL update sequences of length 1..%d over lines %v x texts {%s}, and the shapes %v with n in %v lines, x EVERY position of ONE failing update x {%s}: every write to stdout made by the chosen update fails (an already expired write deadline on the pipe that stands in for os.Stdout, cleared right after the update: each write returns an error at once and writes nothing - verified in every case; no timing involved), the remaining updates are written normally, then every line written so far is rewritten once with its latest text (one full repaint, as the renderers do on their next tick) and the writer is closed. Judged: after the updates that follow the failed one every line shows its latest text, except that the line of the failed update may still show its text as if that update had not been made; after the repaint every line shows exactly its latest text; after Close the cursor is below the last line and visible; no panic, no output outside the emulated subset, no cursor-up past the first row. class = cursor-line-update (the failed update is addressed to the line the cursor is on: CR, text and erase are lost, no cursor movement) | cursor-moving-update (line feeds / cursor-up sequences are lost with it; there every mismatch of rows or cursor position is filed as display-not-restored). PARTIAL faults: ALL sequences of length 1..%d over the same alphabet, and the shapes with n in [2 3 5] lines, x every position x the same configurations x EVERY amount of room R in 0..T-1 (T = bytes the update writes unfaulted, measured by a dry run of the same case): stdout is a non-blocking one-page pipe not polled by the Go runtime (O_NONBLOCK set behind the os.File), filled up to R bytes of room before the chosen update, so of the update's writes, in order, each one that still fits arrives and each one that does not fails with EAGAIN writing nothing (Linux pipes: writes <= PIPE_BUF are atomic, room is not reclaimed before the pipe is empty): all fail / the cursor movement arrives and text and erase fail / the erase arrives without the text / only the cursor-hide fails ...; judged like the whole-update fault, except that after a partially arrived update nothing is demanded of that update's own line before the repaint. ", faultMaxLen(quick), faultLines, q(faultTexts), lineShapes, faultGenSizes(quick), strings.Join(cs, "; "), roomMaxLen(quick))
+	}
 	sb.WriteString("states = distinct_outcomes = distinct emulator states (screen rows, cursor row/column, cursor visibility, width) reached before and after Close; transitions = updates + Close applied. non-trivial = (sequence) at least two updates of which one rewrites an already written line or moves to a lower line index; (linetrim) a text longer than the width that contains an escape sequence or a non-ASCII byte")
 	return sb.String()
 }
@@ -904,6 +994,7 @@ func main() {
 				"texts contain only complete SGR escape sequences (ESC [ digits ; m); a colour left switched on by a cut before its reset sequence is not a violation of the statement",
 				"the width hook multiterm.VerifSetTermSize (build tag verif) replaces the width detected from a real TTY",
 				"one terminal, one TermWriter: two writer instances on the same terminal are out of scope; updates after Close are only required not to panic (TermWriter), VirtualTerm/BufferedTerm panic on them by design (\"virtualterm closed\")",
+				"write faults: transient failures within exactly ONE update are generated (an expired write deadline: every write fails; EAGAIN on a non-blocking descriptor with limited room: the writes that do not fit fail), every failing call writes nothing (no short writes); faults in two or more updates, a fault during Close, and a terminal that stays broken are not covered. The statement cannot demand that a failed write appears on screen: the failed update's own text is only demanded after the full repaint that follows, in which every write succeeds",
 				"the emulated screen has unbounded rows, so the line-count sweep (up to 129 lines quick, 4097 thorough) judges the cursor bookkeeping, not a terminal that scrolls",
 			}
 		},
